@@ -149,20 +149,23 @@ def build_world(case):
             '/sim/home', '/sim/tmp'],
          'argv': argv, 'cwd': PDIR, 'env': {'HOME': '/sim/home'}, 'epoch': sched.get('epoch', 1.7e9),
          'set_seed': sched.get('set_seed'), 'list_seed': sched.get('list_seed'),
-         'tmp_names': sched.get('tmp_names', []), 'step_budget': 6_000_000, 'faults': list(case.get('faults', []))}
+         'tmp_names': sched.get('tmp_names', []), 'step_budget': 6_000_000, 'faults': list(case.get('faults', [])),
+         'resource_mtime': sched.get('resource_mtime')}
     return w
 
 
 # ---- grammar oracle --------------------------------------------------------------------------------
 class Rule:
-    __slots__ = ('name', 'scope', 'rx', 'nested', 'inner')
+    __slots__ = ('name', 'scope', 'rx', 'nested', 'inner', 'end', 'pop')
 
-    def __init__(self, name, scope, pattern, nested=None, inner=None):
+    def __init__(self, name, scope, pattern, nested=None, inner=None, end=None, pop=False):
         self.name = name
         self.scope = scope
         self.rx = re.compile(pattern)
         self.nested = nested or []      # preprocessor line: rules applied right after the '#'
         self.inner = inner or []        # instruction / macro: rules applied to the operands
+        self.end = re.compile(end) if end else None     # TextMate begin/end rule: where the operand context ends
+        self.pop = pop                  # Sublime: this (zero-width) rule pops the operand context
 
 
 def vscode_rules(grammar):
@@ -185,7 +188,8 @@ def vscode_rules(grammar):
             elif pat.get('name') == 'meta.function' and depth <= 1:
                 for p in pat.get('patterns', []):
                     inner.extend(conv(p, depth + 2))
-            out.append(Rule(pat.get('name', '?'), scope, pat['begin'], nested, inner))
+            out.append(Rule(pat.get('name', '?'), scope, pat['begin'], nested, inner,
+                            end=pat.get('end') if inner else None))
         elif 'match' in pat:
             out.append(Rule(pat.get('name', '?'), pat.get('name'), pat['match']))
         elif 'patterns' in pat:
@@ -213,7 +217,8 @@ def sublime_rules(syntax):
                     nested = conv(it['push'], depth + 1)
                 elif it.get('scope') in (INSTR_SCOPE, MACRO_SCOPE) and isinstance(it.get('push'), list) and depth <= 1:
                     inner = conv(it['push'], depth + 2)
-                out.append(Rule(it.get('scope', '?'), it.get('scope'), it['match'], nested, inner))
+                out.append(Rule(it.get('scope', '?'), it.get('scope'), it['match'], nested, inner,
+                                pop=bool(it.get('pop'))))
         return out
     return conv(ctx['main'])
 
@@ -263,6 +268,39 @@ def classify_operand(rules, mnemonic, operand):
     return (inner[1].scope, inner[2].group(0), inner[2].start() - len(mnemonic) - 1)
 
 
+def classify_second(rules, first, second):
+    """scope of `second` when it follows the operation `first` on the same line (compound line): the operand context of
+    `first` must end in front of it (TextMate `end` / Sublime `pop` look-ahead) and the main rules must then claim it"""
+    text = f'{first} {second}'
+    top = first_match(rules, text, 0)
+    if top is None or top[1].scope not in (INSTR_SCOPE, MACRO_SCOPE) or not top[1].inner:
+        return None
+    rule, pos = top[1], top[2].end()
+    inner = first_match([r for r in rule.inner if not r.pop], text, pos)
+    ends = []
+    if rule.end is not None:
+        m = rule.end.search(text, pos)
+        if m:
+            ends.append(m.start())
+    for order, r in enumerate(rule.inner):
+        if r.pop:
+            m = r.rx.search(text, pos)
+            if m:
+                # a pop rule listed after the claiming rule loses a tie at the same position
+                later = inner is not None and m.start() == inner[2].start() and order > rule.inner.index(inner[1])
+                if not later:
+                    ends.append(m.start())
+    pe = min(ends) if ends else None
+    if pe is not None and (inner is None or pe <= inner[2].start()):
+        after = first_match(rules, text, pe)
+        if after is None:
+            return None
+        return (after[1].scope, after[2].group(0), after[2].start() - len(first) - 1)
+    if inner is None:
+        return None
+    return (inner[1].scope, inner[2].group(0), inner[2].start() - len(first) - 1)
+
+
 def near_misses(word, vocab_lower):
     out = []
     for cand in (word + 'q', 'q' + word, word[:-1], word.replace('.', 'x') if '.' in word else None,
@@ -305,6 +343,14 @@ def check_grammar(rules, vocab, target):
             if res is None or res[0] != REG_SCOPE or res[1].lower() != w.lower() or res[2] != 0:
                 v.append('CL-register-operand-not-classified-in-full')
                 detail.append((f'{mn} {w}', res, 'register-operand'))
+    # compound lines: an operation that follows another operation on the same line keeps its own class
+    for mn in carriers[:1]:
+        for cls, scope, words in (('instruction', INSTR_SCOPE, vocab['instructions']), ('macro', MACRO_SCOPE, vocab['macros'])):
+            for w in words:
+                res = classify_second(rules, mn, w)
+                if res is None or res[0] != scope or res[1].lower() != w.lower() or res[2] != 0:
+                    v.append(f'CL-{cls}-after-another-operation-not-classified-in-full')
+                    detail.append((f'{mn} {w}', res, cls + '-compound'))
     for d in COMPILER_DIRECTIVES:
         expect('.' + d, DIR_SCOPE, 'directive')
     for d in BYTECODE_DIRECTIVES:
@@ -457,6 +503,8 @@ def xproc_generate(case, hashseed):
         py = '/venv/bin/python' if os.path.exists('/venv/bin/python') else 'python3'
         env = {'PYTHONHASHSEED': str(hashseed), 'PYTHONPATH': child.REPO_SRC, 'PYTHONDONTWRITEBYTECODE': '1',
                'HOME': base + '/home', 'PATH': '/usr/bin:/bin', 'LANG': 'C.UTF-8', 'TMPDIR': base + '/tmp'}
+        if case.get('sched', {}).get('pyopt'):
+            env['PYTHONOPTIMIZE'] = str(case['sched']['pyopt'])      # `python -O` / `-OO`: asserts and docstrings gone
         cp = subprocess.run([py, '-m', 'bespokeasm', 'generate-extension', case['target'], '-c', 'isa.json', '-d',
                              base + '/out'] + list(case.get('opts', [])), cwd=base, env=env, capture_output=True,
                             timeout=120)
@@ -598,7 +646,9 @@ def attributable(case, vclass, finding):
     if finding['id'] != 'C20-cross-class-dotted-prefix':
         return False
     if vclass not in ('CL-macro-not-classified-in-full', 'CL-instruction-not-classified-in-full',
-                      'CL-register-not-classified-in-full'):
+                      'CL-register-not-classified-in-full',
+                      'CL-macro-after-another-operation-not-classified-in-full',
+                      'CL-instruction-after-another-operation-not-classified-in-full'):
         return False
     isa = effective_isa(case)
     vocab = vocab_of(isa)
@@ -607,10 +657,13 @@ def attributable(case, vclass, finding):
         return False
     det = res['observed'].get('detail', {}).get('classification_all', [])
     cls = vclass.split('-')[1]
-    mine = [d for d in det if d[2] == cls]
+    compound = 'after-another-operation' in vclass
+    mine = [d for d in det if d[2] == (cls + '-compound' if compound else cls)]
     if not mine:
         return False
     for word, got, _ in mine:
+        if compound:
+            word = word.split(' ', 1)[1]
         if got is None or not cross_class_dotted_prefix(word, got[0], got[1], vocab):
             return False
     return True
@@ -629,7 +682,8 @@ def simplify(case):
 def gen_sched(rnd):
     return {'set_seed': rnd.randrange(1, 1 << 30), 'list_seed': rnd.randrange(1, 1 << 30),
             'tmp_names': [rnd.choice(['a1b2', 'zz_9', 'Q', '0000'])],
-            'epoch': rnd.choice([1.7e9, 3.2e8, 9.5e8, 2.0e9, 4.0e9])}
+            'epoch': rnd.choice([1.7e9, 3.2e8, 9.5e8, 2.0e9, 4.0e9]),
+            'resource_mtime': rnd.choice([None, 0.0, 86400.0, 3.0e8, 1.7e9, 4.2e9])}
 
 
 def alternation_orders(files):
@@ -747,7 +801,7 @@ def explore(subseed, cfg):
             out['distinct'].add(H((vd, target, 'two-run', mode, str(c['prior'].get('faults')))) & 0xFFFFFFFFFFFF)
         if (subseed & 0xFFFFFFFF) % cfg.get('xproc_every', 6) == 0:
             for hs in [0] + rnd.sample(range(1, 3000), cfg.get('hashseeds', 3) - 1):
-                c = dict(copy.deepcopy(base), target=target, sched={'hashseed': hs})
+                c = dict(copy.deepcopy(base), target=target, sched={'hashseed': hs, 'pyopt': rnd.choice([0, 0, 1, 2])})
                 try:
                     res = check_case(c)
                 except Exception as e:
